@@ -13,6 +13,9 @@ SYNTH_MAPS = [
     "osu file format v14\n\n[General]\nMode: 3\nSpecialStyle: 1\n\n[Difficulty]\nCircleSize:4\n\n[TimingPoints]\n0,300,4,1,0,100,1,0\n100,-25,4,1,0,100,0,1\n200,-2000,4,1,0,100,0,0\n\n"
     "[HitObjects]\n64,192,1000,128,0,1500:0:0:0:0:\n192,192,1200,1,2,0:0:0:0:\n320,192,1300,2,0,B4|330:192|340:192|350:192|360:192,1,50\n",
 ]
+# on the write side every error kind is a fatal fault alike (only `Interrupted` is retried): also the kinds a consumer that hung up
+# produces (seed C09-r: BrokenPipe from the final flush swallowed)
+WRITE_KINDS = ERROR_KINDS + ["BrokenPipe", "ConnectionReset", "ConnectionAborted", "NotFound", "InvalidInput", "Unsupported", "OutOfMemory", "WriteZero", "InvalidData"]
 WRITE_FAULTS = ["f" + k for k in ERROR_KINDS] + ["z"]
 
 
@@ -146,6 +149,22 @@ class C09(Property):
                      "faultsched cff fTimedOut cfe", "faultsched cef cbb fWouldBlock cbf", "faultsched c5b c47 fOther", "faultsched cfeff000a fPermissionDenied",
                      "faultsched cfeff0a fUnexpectedEof c41000a"]:
             cases.append(Case(line, tags=("read", "corner")))
+        # an end-of-input indication (a read of 0 bytes) FOLLOWED by transient interruptions, for inputs shorter than a BOM and longer ones:
+        # every poll of the source retries `Interrupted`, also one made after an empty buffer was seen (seed C09-q: the BOM probe re-polls)
+        shorts = [b"", b"\n", b"\r\n", b"[", b"ab", b"\xef\xbb", b"\xff\xfe", b"\xfe\xff", b"o", b"\xef", b"[General]\nMode: 1\n", "\ufeffosu file format v9\n".encode()]
+        for data in shorts:
+            for k in (1, 2, 5):
+                for tail in ([], ["c-"], ["c-", "i"], ["fOther"], ["c5b4d657461646174615d0a"]):
+                    for split in (False, True):
+                        chunks = ([("c" + bytes([x]).hex()) for x in data] if split else (["c" + data.hex()] if data else []))
+                        # `e` = one poll answered with "no more bytes"; the model's schedules have no such event, so these are judged on the
+                        # implementation only (with and without the interruptions the outcome must be the same)
+                        if any(t.startswith("f") or (t.startswith("c") and t != "c-") for t in tail):
+                            continue
+                        tail = ["e" if t == "c-" else t for t in tail]
+                        toks = chunks + ["e"] + ["i"] * k + tail
+                        cases.append(Case("faultsched " + " ".join(toks), corr=False, tags=("read", "interrupted-after-eof")))
+                        cases.append(Case("faultsched " + " ".join(["i"] * k + chunks + ["i", "e", "i"] + tail), corr=False, tags=("read", "interrupted-after-eof")))
 
         # ---- write side ------------------------------------------------------------------------
         names = [os.path.basename(f).replace(" ", "+") for f in bundled_files()]
@@ -172,7 +191,7 @@ class C09(Property):
                 if total > 50000 and quick:
                     offs = offs[:2] + rng.sample(offs, 8)
             for k in offs:
-                ev = WRITE_FAULTS[rot % 6]
+                ev = WRITE_FAULTS[rot % 6] if rot % 3 else "f" + WRITE_KINDS[(rot // 3) % len(WRITE_KINDS)]
                 rot += 1
                 style = rng.random()
                 if style < 0.5:
@@ -186,15 +205,15 @@ class C09(Property):
                         if rng.random() < 0.2:
                             evs.append("i")
                     evs.append(ev)
-                flush = "ok" if rng.random() < 0.8 else rng.choice(ERROR_KINDS)
+                flush = "ok" if rng.random() < 0.8 else rng.choice(WRITE_KINDS)
                 cases.append(Case(f"encfault {name} {flush} / " + " ".join(evs), corr=False,
                                   tags=("write", "encode-small-every-offset" if small else "encode-sampled-offset", "ev-" + ev)))
             # no fatal event: short writes + interruptions only, flush ok / failing
-            for _ in range(3):
+            for _ in range(8):
                 evs = []
                 for _ in range(rng.choice([0, 5, 50])):
                     evs.append(rng.choice(["a1", "a2", "a3", "a17", "a300", "i", "a0"]))
-                flush = rng.choice(["ok", "ok"] + ERROR_KINDS)
+                flush = rng.choice(["ok", "ok"] + WRITE_KINDS)
                 cases.append(Case(f"encfault {name} {flush} / " + " ".join(evs), corr=False,
                                   tags=("write", "encode-no-fault", "flush-" + ("ok" if flush == "ok" else "err"))))
 
